@@ -9,7 +9,7 @@ CHECKS = {
     "C01": "props.c01", "C02": "props.c02", "C03": "props.cpu_props", "C04": "props.cpu_props",
     "C05": "props.c05", "C07": "props.cpu_props", "C08": "props.c08", "C09": "props.c09",
     "C10": "props.c10", "C11": "props.c11", "C12": "props.c12", "C13": "props.c13",
-    "C14": "props.c14", "C15": "props.c15", "C17": "props.c17",
+    "C14": "props.c14", "C15": "props.c15", "C16": "props.c16", "C17": "props.c17",
 }
 
 
